@@ -1,5 +1,4 @@
-import ExaModel.Lemmas.FieldsTrans
-import ExaModel.Generated.FieldLimits
+import ExaModel.Lemmas.FieldsAccept
 set_option linter.unusedSimpArgs false
 /-!
 # C18 — Route text is accepted if and only if it can be sent
@@ -26,14 +25,18 @@ a field is laid out):
   `rfc_limit_is_layout_limit`), in particular every AS number below 2^32 on every kind of session
   (`asn_fits_every_session`, via AS_TRANS + AS4_PATH on a 2-byte session: `astrans_shape`);
 * AS_PATH segments never exceed the one-byte segment length (`segSplit_sound`);
-* the limits the parsers of /repo compare against (re-extracted on every run) are the RFC limits,
-  with the listed exceptions, each of which is a finding (`parser_constants_*`).
+* the acceptance side: `accepts f v`, the range check of the parser as a function of the bounds
+  re-extracted from the parser sources on every run, is exactly "not negative and fits" for every value
+  field, and "fits and leaves room in the UPDATE" for the five list lengths (`parser_bounds_exact`,
+  `accepts_iff_fits`, `accepts_iff_sendable`); what is accepted is carried as written
+  (`accepted_encodes`), what is refused cannot be sent (`refused_cannot_be_sent`).
 
-This is `partial` in the sense of DESIGN section 1: "the parser accepts exactly what fits and never
-raises" is a statement about the text parsers of /repo, which are not modelled function by
-function; that half is the acceptance sweep of `harness/props/C18.py` (every field × every boundary
-value × every entry point × every session shape, enumerated, not sampled), which uses `fits`,
-`encodeField` and `decodeField` of this file through `drv_fields` as the oracle.
+This is `partial` in the sense of DESIGN section 1: the range checks of the parsers are in the model
+(generated), their *control flow* is not — that the parser applies exactly the generated comparison to
+the token, and never raises on a token that is not a number, is the acceptance sweep of
+`harness/props/C18.py` (every field × every boundary value and a random sample × every entry point ×
+every session shape), which compares the real accept / refuse decision with `accepts` and uses
+`fits`, `encodeField` and `decodeField` of this file through `drv_fields` as the oracle.
 -/
 namespace Exa.Props.C18
 open Exa Exa.Fields
@@ -132,47 +135,105 @@ theorem unfit_wraps (w v : Nat) : rdN (beN w v) = v % 256 ^ w := rdN_beN w v
 theorem segSplit_sound (n : Nat) : (segSplit n).sum = n ∧ ∀ x ∈ segSplit n, 0 < x ∧ x ≤ 255 :=
   ⟨segSplitAux_sum n n (Nat.le_refl n), segSplitAux_le n n⟩
 
-/-! ## the parser's constants (generated from /repo on every run) -/
+/-! ## the acceptance side: the parser of /repo accepts exactly what can be sent
 
-open Exa.Generated.FieldLimits in
-/-- A constant the parser compares against, looked up against the RFC limit of the model. -/
-def rowLimit (name : String) : Option Nat := (Field.ofName? name).map rfcLimit
+`accepts f v` is the range check of the repaired parser on a plain decimal token, as a function of the
+bounds `harness/tables/fields.py` reads from the comparisons of the parser sources on every run
+(`Generated/FieldLimits.lean`: 67 rows, one per field; 63 read from comparisons in the source, the 4
+IPv4-octet fields of `originator-id`, `cluster-list`, `aggregator` and `path-information` are bounded by
+`socket.inet_pton` / `bytes()` and measured).  The three exceptions of the first version of this file
+(`flowTrafficClass` 0xFFFF, `vplsBase` 0xFFFF, `FlowFragment` two bytes wide) were closed by the repairs
+(F75…F85) and are gone: the statements below have no exception list. -/
 
-/-- Parser constants that let through more than the wire can hold (each is a finding:
-    `flowTrafficClass` is the F27 class — traffic-class 256 is accepted and `pack_nlri` raises). -/
-def looseConstants : List String := ["flowTrafficClass"]
-/-- Parser constants that refuse values the RFC allows (finding: a VPLS label base is a 20-bit
-    label, RFC 4761 section 3.2.2; the parser stops at 65535). -/
-def tightConstants : List String := ["vplsBase"]
+/-- **The translation obligation.**  For every field, the bounds re-extracted from the parser are
+    exactly `[0, acceptLimit f - 1]`: the RFC limit of the field, and for the five list lengths what
+    leaves room in a 65535-byte UPDATE.  A comparison that changes in /repo changes the generated
+    row and this theorem no longer checks; one that disappears or changes operator stops the
+    translator. -/
+theorem parser_bounds_exact (f : Field) :
+    parserBound f = some (0, (acceptLimit f : Int) - 1) := parserBound_eq f
 
-/-- No constant of the parser lets through a value the wire cannot hold — except the listed ones. -/
-theorem parser_constants_not_above_wire :
-    ∀ row ∈ Exa.Generated.FieldLimits.parserMax,
-      (∃ lim, rowLimit row.1 = some lim ∧ row.2 < lim) ∨ row.1 ∈ looseConstants := by
-  decide
+/-- **Accepted if and only if it fits** — every field that is a value (62 of the 67): the parser lets a
+    plain decimal token through exactly when it is not negative and the wire format can hold it. -/
+theorem accepts_iff_fits (f : Field) (hf : f.isCount = false) (v : Int) :
+    accepts f v = true ↔ (0 ≤ v ∧ fits f v.toNat = true) := by
+  rw [accepts_iff_lt, acceptLimit_of_not_count f hf, fits_iff_lt]
+  omega
 
-/-- Every constant of the parser reaches the RFC limit — except the listed ones. -/
-theorem parser_constants_reach_rfc :
-    ∀ row ∈ Exa.Generated.FieldLimits.parserMax,
-      (∃ lim, rowLimit row.1 = some lim ∧ lim ≤ row.2 + 1) ∨ row.1 ∈ tightConstants := by
-  decide
+/-- **Accepted if and only if it can be sent** — every field, no exception: for a value "fits"; for
+    the five list lengths (data bytes of a generic attribute, communities, large communities, extended
+    communities, cluster ids) "fits its length field AND leaves room in a 65535-byte UPDATE" (header 19,
+    two length fields 4, attribute header 4, 128 bytes for the other attributes and the NLRI). -/
+theorem accepts_iff_sendable (f : Field) (v : Int) :
+    accepts f v = true ↔
+      (0 ≤ v ∧ fits f v.toNat = true ∧
+        (f.isCount = true → msgFits 65535 (v.toNat * f.unit + 4) 128 = true)) := by
+  rw [accepts_iff_lt, fits_iff_lt]
+  by_cases hf : f.isCount = true
+  · have hr := count_room f hf v.toNat
+    have hle := acceptLimit_le_rfcLimit f
+    simp only [hf, forall_const]
+    constructor
+    · rintro ⟨h0, h1⟩
+      have : v.toNat < acceptLimit f := by omega
+      exact ⟨h0, by omega, hr.1 this⟩
+    · rintro ⟨h0, _, h2⟩
+      have := hr.2 h2
+      omega
+  · have hf' : f.isCount = false := by simpa using hf
+    rw [acceptLimit_of_not_count f hf']
+    simp only [hf', Bool.false_eq_true, false_implies, and_true]
+    omega
 
-/-- Component classes that encode a wider value than the RFC allows (finding: `FlowFragment`
-    encodes two bytes, RFC 8955 section 4.2.2.12 says the bitmask MUST be a single octet). -/
-def wideComponents : List String := ["flowFragment"]
+/-- Whatever the parser accepts fits the wire format (all 67 fields). -/
+theorem accepts_implies_fits (f : Field) (v : Int) (h : accepts f v = true) :
+    0 ≤ v ∧ fits f v.toNat = true := by
+  have := (accepts_iff_sendable f v).1 h
+  exact ⟨this.1, this.2.1⟩
 
-/-- The widest value each FlowSpec component class encodes (`VALUE_SIZES`) is the model's width —
-    except the listed ones, which are wider. -/
+/-- **Every accepted definition carries the value as written.**  A token the parser accepts is a
+    natural number whose encoding is exactly `width f` well-formed bytes, which a receiver takes as
+    a value of the field and decodes to the number written — on both kinds of session. -/
+theorem accepted_encodes (f : Field) (v : Int) (h : accepts f v = true) :
+    ((v.toNat : Int) = v) ∧ (encodeField f v.toNat).length = width f ∧ WFBytes (encodeField f v.toNat)
+      ∧ validWire f (encodeField f v.toNat) = true
+      ∧ decodeField f (encodeField f v.toNat) = v.toNat := by
+  obtain ⟨h0, hfit⟩ := accepts_implies_fits f v h
+  exact ⟨by omega, encode_length f _, encode_wellformed f _, encode_valid f _ hfit, fits_roundtrip f _ hfit⟩
+
+/-- What the parser refuses cannot be sent: a negative number, a value with no encoding
+    (`nofit_no_encoding`), or a list that leaves no room in the UPDATE. -/
+theorem refused_cannot_be_sent (f : Field) (v : Int) (h : accepts f v = false) :
+    v < 0 ∨ fits f v.toNat = false ∨
+      (f.isCount = true ∧ msgFits 65535 (v.toNat * f.unit + 4) 128 = false) := by
+  have hs := accepts_iff_sendable f v
+  by_cases h0 : 0 ≤ v
+  · by_cases h1 : fits f v.toNat = true
+    · by_cases hc : f.isCount = true
+      · by_cases h2 : msgFits 65535 (v.toNat * f.unit + 4) 128 = true
+        · have : accepts f v = true := hs.2 ⟨h0, h1, fun _ => h2⟩
+          simp [this] at h
+        · exact Or.inr (Or.inr ⟨hc, by simpa using h2⟩)
+      · have : accepts f v = true := hs.2 ⟨h0, h1, fun hc' => absurd hc' hc⟩
+        simp [this] at h
+    · exact Or.inr (Or.inl (by simpa using h1))
+  · exact Or.inl (by omega)
+
+/-- The widest value each FlowSpec component class encodes (`VALUE_SIZES`) is the model's width. -/
 theorem flow_widths_match :
     ∀ row ∈ Exa.Generated.FieldLimits.flowWidth,
-      ∃ f, Field.ofName? row.1 = some f ∧
-        ((layout f).width = row.2 ∨ (row.1 ∈ wideComponents ∧ (layout f).width < row.2)) := by
+      ∃ f, Field.ofName? row.1 = some f ∧ (layout f).width = row.2 := by
   decide
 
-/-- `ASPath.SEGMENT_MAX_LENGTH`, `AS_TRANS` and `ASN.MAX_2BYTE` are the constants of the model. -/
+/-- `ASPath.SEGMENT_MAX_LENGTH`, `AS_TRANS`, `ASN.MAX_2BYTE`, `ATTRIBUTE_VALUE_MAX` and the bytes one
+    list element takes are the constants of the model. -/
 theorem generated_constants :
     Exa.Generated.FieldLimits.segmentMax = 255 ∧ Exa.Generated.FieldLimits.asTrans = asTrans
-      ∧ Exa.Generated.FieldLimits.asn2Max + 1 = 65536 := by decide
+      ∧ Exa.Generated.FieldLimits.asn2Max + 1 = 65536
+      ∧ Exa.Generated.FieldLimits.attributeValueMax = 65535 - 19 - 4 - 4 - 128
+      ∧ (∀ row ∈ Exa.Generated.FieldLimits.countUnits,
+          ∃ f, Field.ofName? row.1 = some f ∧ f.isCount = true ∧ f.unit = row.2)
+      ∧ Exa.Generated.FieldLimits.parserBounds.length = allFields.length := by decide
 
 /-! ## non-vacuity: the hypotheses are satisfiable and the conclusions bite -/
 
@@ -201,8 +262,16 @@ example : encodeField .label 1048575 = [255, 255, 241] ∧ fits .label 1048576 =
 example : decodeField .label [255, 255, 241] = 1048575 := by decide
 -- a prefix length of 33 is a byte on the wire, but not a value of the field
 example : fits .mask4 33 = false ∧ validWire .mask4 [33] = false ∧ validWire .mask4 [32] = true := by decide
--- VPLS label base: 20 bits (the parser stops at 65535: `tightConstants`)
-example : fits .vplsBase 800000 = true := by decide
+-- VPLS label base: 20 bits, and accepted (F-vpls closed)
+example : fits .vplsBase 800000 = true ∧ accepts .vplsBase 800000 = true := by decide
+-- the acceptance side bites on both sides of every kind of bound
+example : accepts (.asPathAsn .asn2) 4294967295 = true ∧ accepts (.asPathAsn .asn2) 4294967296 = false := by decide
+example : accepts .communityLow 65535 = true ∧ accepts .communityLow 65536 = false ∧ accepts .communityLow (-1) = false := by decide
+example : accepts .mask4 32 = true ∧ accepts .mask4 33 = false := by decide
+example : accepts .flowOffset6 127 = true ∧ accepts .flowOffset6 128 = false := by decide
+-- a list: 16345 communities (65380 bytes) are accepted, 16346 are refused although 16383 fit the length field
+example : accepts .communitiesCount 16345 = true ∧ accepts .communitiesCount 16346 = false ∧ fits .communitiesCount 16383 = true := by decide
+example : msgFits 65535 (16345 * 4 + 4) 128 = true ∧ msgFits 65535 (16346 * 4 + 4) 128 = false := by decide
 -- 600 AS numbers in one written segment: 255 + 255 + 90
 example : segSplit 600 = [255, 255, 90] := by decide
 example : asPathLen .asn4 600 = 2406 := by decide
